@@ -83,6 +83,9 @@ type Upstream struct {
 	// healthBody: what /healthz answers with ("" = the text "ok"); e.g. a JSON Status object, as an apiserver
 	// answers failed requests
 	healthBody atomic.Value
+	// healthHold: when it holds a channel, a /healthz probe is answered only after that channel is closed (the probe is
+	// "on the wire" meanwhile), then with the status in force at that moment
+	healthHold atomic.Value
 	mu      sync.Mutex
 	seen    map[string]*Seen
 	order   []string
@@ -156,6 +159,9 @@ func (p *Pool) Find(id string) []*Seen {
 // SetHealth sets the /healthz status of an upstream (200 healthy, 500 unhealthy, 0 hang up, -1 accept and never answer, -2 answer 200 and stall in the body).
 func (u *Upstream) SetHealth(status int) { atomic.StoreInt32(&u.healthy, int32(status)) }
 
+// SetHealthHold makes the stub keep probes unanswered until ch is closed (nil: answer at once).
+func (u *Upstream) SetHealthHold(ch chan struct{}) { u.healthHold.Store(&ch) }
+
 // SetHealthBody sets the body (and, when it starts with '{', the JSON content type) of the /healthz answers.
 func (u *Upstream) SetHealthBody(body string) { u.healthBody.Store(body) }
 
@@ -178,6 +184,13 @@ func (u *Upstream) serve(w http.ResponseWriter, r *http.Request) {
 		u.mu.Lock()
 		u.probes = append(u.probes, time.Now())
 		u.mu.Unlock()
+		if hp, _ := u.healthHold.Load().(*chan struct{}); hp != nil && *hp != nil {
+			select {
+			case <-*hp:
+			case <-r.Context().Done():
+				return
+			}
+		}
 		st := int(atomic.LoadInt32(&u.healthy))
 		if st == -2 {
 			// the response starts (status line and headers reach the prober) and then the body stalls
